@@ -119,6 +119,27 @@ def run_case(spec, j):
         p['n_constraints'], random_state=seed)
     idx = np.vstack([np.column_stack([a, b]), np.column_stack([c, dd])])
     lab = np.r_[np.ones(len(a)), -np.ones(len(c))]
+  fit_args = f.args
+  if name == 'SDML' and len(idx) >= 4 and (
+          (isinstance(p['prior'], str) and p['prior'] == 'covariance') or
+          spec['ds']['seed'] % 3 == 0):
+    # the same point written twice, once with 0.0 and once with -0.0 in a
+    # coordinate: equal numbers (one point for the 'covariance' prior),
+    # different bytes
+    idx = np.array(idx, copy=True)
+    for t_ in range(min(3, len(idx) // 2)):
+      i0 = int(idx[t_, 0])
+      k0 = int((spec['ds']['seed'] + t_) % d)
+      X = np.vstack([X, X[i0][None]])
+      X[i0, k0] = 0.0
+      X[-1, k0] = -0.0
+      jn = len(X) - 1
+      occ = np.argwhere(idx == i0)
+      for r_, c_ in occ[1::2]:
+        idx[r_, c_] = jn
+      if not (idx == jn).any() and idx[-1 - t_, 1] != i0:
+        idx[-1 - t_, 0] = jn
+    fit_args = (X[idx],) + tuple(f.args[1:])
   V = X[idx[:, 0]] - X[idx[:, 1]]
   pts = np.unique(X[idx].reshape(-1, d), axis=0)
   M0 = E.harness_prior(p['prior'], pts, d, seed)
@@ -146,7 +167,7 @@ def run_case(spec, j):
   raised = None
   with Quiet() as q:
     try:
-      est.fit(*f.args)
+      est.fit(*fit_args)
     except Exception as e:
       raised = e
   api.set_well_formed(False)
